@@ -34,8 +34,8 @@ Definition w_K3_capture : c04case := CShape (Build_emodel [83%N] [48%N] [(Build_
 Lemma w_K3_capture_refuted : spec_C04 w_K3_capture (run_C04 w_K3_capture) = false /\ known_C04 w_K3_capture = [3].
 Proof. vm_compute. split; reflexivity. Qed.
 
-(* float : {'by_literal': 0, 'by_param': 1, 'digits': 16, 'literal': '8.407903850944054e17', 'note': '', 'read_back_raw': '8.407903850944054e+17', 'stored_raw': '8.407903850944054e+17', 'value': '8.407903850944054e17'} *)
-Definition w_K4_float_display : c04case := CFlt HParam 4874959872071056218 4874959872071056218 false.
+(* float : {'by_literal': 0, 'by_param': 1, 'digits': 16, 'literal': '6.759302089509944e17', 'note': '', 'read_back_raw': '6.759302089509944e+17', 'stored_raw': '6.759302089509944e+17', 'value': '6.759302089509944e17'} *)
+Definition w_K4_float_display : c04case := CFlt HParam 4873671901944935820 4873671901944935820 false.
 Lemma w_K4_float_display_refuted : spec_C04 w_K4_float_display (run_C04 w_K4_float_display) = false /\ known_C04 w_K4_float_display = [4].
 Proof. vm_compute. split; reflexivity. Qed.
 
